@@ -153,13 +153,13 @@ var plans = map[string]*plan{
 	},
 	"C10": {
 		Level:          "exploration",
-		Rule:           "sequential histories (12..36 steps, synctest) over client ids {s, s1, t} (one a prefix of another) of CONNECT(CleanSession 0/1) / SUBSCRIBE / UNSUBSCRIBE / DISCONNECT / abrupt close, at most one live connection per id. Model: id -> subscriptions kept by CleanSession=0 connections. CONNACK SessionPresent must equal the model; after the new connection answered one PINGREQ, 7 probe publishes from another client must reach exactly the model's filters at the stored granted QoS (C01 oracle) on every live connection, after every connect and every end. TestC10Big (real time): sessions of 1000..40000 filters are resumed and 64 publications are written the instant the PINGRESP to the resumed connection's first request has been read; each must arrive exactly once at min(1, granted QoS). distinct = (clean, state kept, number of restored subscriptions).",
-		Quick:          []batchSpec{{Test: "TestC10", N: 8, Timeout: 15 * m}, {Test: "TestC10Big", N: 4, Timeout: 15 * m}},
-		Thorough:       []batchSpec{{Test: "TestC10", N: 16, Timeout: 60 * m}, {Test: "TestC10Big", N: 12, Timeout: 60 * m}},
+		Rule:           "sequential histories (12..36 steps, synctest) over client ids {s, s1, t} (one a prefix of another) of CONNECT(CleanSession 0/1) / SUBSCRIBE / UNSUBSCRIBE / DISCONNECT / abrupt close, at most one live connection per id. Model: id -> subscriptions kept by CleanSession=0 connections. CONNACK SessionPresent must equal the model; after the new connection answered one PINGREQ, 7 probe publishes from another client must reach exactly the model's filters at the stored granted QoS (C01 oracle) on every live connection, after every connect and every end. TestC10Overlap: two connections with one client id for a while (older/newer CleanSession 0/1 x state kept before or not x endings): SessionPresent and the active subscriptions of both, of the survivor and of a later CleanSession=0 connection against a model in which CleanSession=1 discards kept state at once and keeps none. Histories also contain resume attempts over a transport whose CONNACK write fails. TestC10Big (real time): sessions of 1000..40000 filters are resumed and 64 publications are written the instant the PINGRESP to the resumed connection's first request has been read; each must arrive exactly once at min(1, granted QoS). distinct = (clean, state kept, number of restored subscriptions).",
+		Quick:          []batchSpec{{Test: "TestC10", N: 8, Timeout: 15 * m}, {Test: "TestC10Big", N: 4, Timeout: 15 * m}, {Test: "TestC10Overlap", N: 4, Timeout: 15 * m}},
+		Thorough:       []batchSpec{{Test: "TestC10", N: 16, Timeout: 60 * m}, {Test: "TestC10Big", N: 12, Timeout: 60 * m}, {Test: "TestC10Overlap", N: 8, Timeout: 60 * m}},
 		EvalStats:      []string{"c10.connects"},
-		Floors:         map[string]int64{"c10.histories": 1500, "c10.connects": 8000, "c10.probes": 100000, "c10.big_sessions": 10, "classes": 8},
+		Floors:         map[string]int64{"c10.histories": 1500, "c10.connects": 8000, "c10.probes": 100000, "c10.big_sessions": 10, "c10.overlap_cases": 150, "c10.failed_resume_attempts": 100, "classes": 8},
 		FloorsThorough: map[string]int64{"c10.histories": 45000, "classes": 8},
-		Assumptions:    []string{"quiescence by synctest.Wait()", "takeover of a live client id is outside the statement and not generated"},
+		Assumptions:    []string{"quiescence by synctest.Wait()", "a second connection with a live client id is generated only in TestC10Overlap (the broker does not disconnect the older connection; the model does not demand it)"},
 	},
 	"C11": {
 		Level: "exploration",
